@@ -92,4 +92,13 @@ RadiusLaws == S # <<>> =>
             /\ \A r \in Cands(Len(S), Cardinality(W)) :
                   IsKNearestLt(lt, Cardinality(W), r) => SeqRange(r) = W
        /\ UNION TieGroups(lt) = DOMAIN lt
+       \* the radius cases generated for the implementation: boundary radii included, bounds nested
+       /\ LET z == ZeroSet(q, S)  all == 0..(Len(S) - 1)  plan == RadiusPlan(lt) IN
+          /\ Len(plan) = nc + 4 /\ plan[1].t = "zero" /\ plan[2].t = "tiny" /\ plan[Len(plan)].t = "beyond"
+          /\ z \subseteq WithinClass(lt, 0) /\ (z # {} => z = WithinClass(lt, 0))
+          /\ \A i \in 1..Len(plan) :
+                LET rk == plan[i].t  c == IF rk = "between" THEN plan[i].c ELSE 0 IN
+                /\ RadLo(lt, z, all, rk, c, FALSE) \subseteq RadLo(lt, z, all, rk, c, TRUE)
+                /\ RadLo(lt, z, all, rk, c, TRUE) \subseteq RadHi(lt, z, all, rk, c)
+                /\ RadHi(lt, z, all, "zero", 0) \subseteq RadHi(lt, z, all, rk, c) \/ rk = "between"
 =============================================================================
